@@ -35,7 +35,12 @@ ASSUMPTIONS = [
     "reference for accuracy: Owen's T-function closed form (scipy.special.owens_t, ndtr), cross-checked on every run against adaptive "
     "integration of phi(u)*Phi((k-r*u)/sqrt(1-r^2)) (scipy.integrate.quad) and against scipy.stats.multivariate_normal.cdf "
     "(abseps=releps=1e-12); a failure is reported only when the adaptive integral confirms it",
-    "rounding slack 1e-12 in the [T] validity streams (range, monotonicity, rectangle mass): the code returns values like -1e-53",
+    "rounding slack 1e-12 in the [T] validity streams (range, monotonicity, rectangle mass; also the uniform kernel's tails): the code "
+    "returns values like -1e-53.  Clauses with a stated accuracy are decided at the statement's 1e-7: tails 0 / 1 at 12 and 38 sd, "
+    "marginals, far tails, and the zero-covariance product against Phi(h)Phi(k) with an independent Phi (scipy.special.ndtr).  Tighter "
+    "agreement the present code happens to have (tails within 1e-12, the product bit-for-bit equal to the product of its own norm_cdf "
+    "values) and the helpers bvn_cdf / sbvn_cdf / norm_cdf / gauss_legendre_quad in the harness's call convention are correspondence "
+    "signals: reported as `no-failing-input-found`, never as a failing input",
     "far tails are explored to 1e6 standard deviations, by correspondence and by the far_tails stream (beyond ~1e77 sd the squares in "
     "bvn_cdf overflow; not explored)",
 ]
@@ -59,7 +64,8 @@ CLAUSES = {
     "uniform kernel is the CDF of the uniform distribution on the box (range, monotone, tails, rectangle mass, box measure)":
         "[P] for all real inputs with positive sides (uniform_*); additionally [T] uniform_* streams and exact correspondence",
     "gaussian, zero covariance: product of the two marginals":
-        "[P] gaussian_zero_cov_is_product; [T] zero_cov_is_product_of_marginals",
+        "[P] gaussian_zero_cov_is_product; [T] zero_cov_is_product_of_marginals (within 1e-7 of Phi(h)Phi(k); bit-level equality with the "
+        "product of the code's own norm_cdf values is a correspondence signal only)",
     "gaussian, zero covariance: values in [0,1], non-decreasing, non-negative rectangle mass, tails 0 and 1":
         "[P] for every monotone Phi into [0,1] (sbvn_range, sbvn_mono, sbvn_rect_nonneg, sbvn_tails, gaussian_zero_cov_valid)",
     "gaussian, zero covariance: agrees with the bivariate normal CDF":
@@ -101,6 +107,22 @@ FAR_CORPUS = [
 
 def K():
     return common.pm("images_kernels")
+
+
+def n_found(ctx):
+    """violations that carry a failing input of the property; correspondence-only reports do not stop the search"""
+    return sum(1 for _, f in ctx.violations if f)
+
+
+_CORR_COUNT = {}
+
+
+def corr_limited(ctx, key, what, case, limit=2):
+    """correspondence-only report (`no-failing-input-found`), at most `limit` per kind; the rest is counted"""
+    _CORR_COUNT[key] = _CORR_COUNT.get(key, 0) + 1
+    ctx.count("correspondence_only:" + key)
+    if _CORR_COUNT[key] <= limit:
+        ctx.violation(what, case, found_input=False, correspondence=key)
 
 
 def pre_build(ctx):
@@ -353,7 +375,7 @@ def check_accuracy(ctx, stream, xs, ys, par, vals, what="gaussian"):
                 ok = True
             else:
                 bad += 1
-                if len(ctx.violations) <= 5:
+                if n_found(ctx) <= 5:
                     ctx.violation("%s differs from the bivariate normal CDF by more than 1e-7: code=%r reference(Owen)=%r "
                                   "adaptive integral=%r at standardised (h,k)=(%r,%r), r=%r [%s]"
                                   % (what, float(vals[i]), float(ref[i]), q, float(h[i]), float(k[i]), rho, branch_of(rho)),
@@ -433,7 +455,7 @@ def corr_uniform(ctx):
                         how = "Rat model"
         if not agree:
             disagreement_uniform(ctx, how, (xs, ys, mu0, mu1, w, h), code, rat, fl)
-            if len(ctx.violations) > 5:
+            if n_found(ctx) > 5:
                 return
 
 
@@ -454,10 +476,9 @@ def disagreement_uniform(ctx, how, case, code, rat, fl):
                       % (c, s, float(s), xs[i], ys[i]),
                       {"op": "uniform", "x": [xs[i]], "y": [ys[i]], "mu": [mu0, mu1], "w": w, "h": h}, correspondence="ker.uniform")
     else:
-        ctx.violation("uniform: code differs from the %s but agrees with the definition on this input" % how,
-                      {"correspondence": "ker.uniform", "line": [xs, ys, mu0, mu1, w, h], "code": code.tolist(),
-                       "model": [str(q) for q in rat] if isinstance(rat, list) else rat, "model_float": fl},
-                      found_input=False)
+        corr_limited(ctx, "ker.uniform", "uniform: code differs from the %s but agrees with the definition on this input" % how,
+                     {"correspondence": "ker.uniform", "line": [xs, ys, mu0, mu1, w, h], "code": code.tolist(),
+                      "model": [str(q) for q in rat] if isinstance(rat, list) else rat, "model_float": fl})
 
 
 def corr_gauss(ctx):
@@ -521,10 +542,20 @@ def corr_gauss(ctx):
                     code = code_gauss(xs, ys, mu0, mu1, sxx, syy, sxy)
                 elif op == "defaults":
                     code = np.array(Kmod.gaussian(X, Y), dtype=float)
-                elif op == "bvn":
-                    code = np.array(Kmod.bvn_cdf(X, Y, mu_x=mu0, mu_y=mu1, sigma_xx=sxx, sigma_yy=syy, sigma_xy=sxy), dtype=float)
                 else:
-                    code = np.array(Kmod.sbvn_cdf(X, Y, mu_x=mu0, mu_y=mu1, sigma_x=sxx, sigma_y=syy), dtype=float)
+                    # helpers called in the harness's own convention: if the helper is gone / takes other arguments, the same
+                    # value is asked of the PUBLIC `gaussian` (inside its domain), and the helper itself is a correspondence matter
+                    try:
+                        if op == "bvn":
+                            code = np.array(Kmod.bvn_cdf(X, Y, mu_x=mu0, mu_y=mu1, sigma_xx=sxx, sigma_yy=syy, sigma_xy=sxy), dtype=float)
+                        else:
+                            code = np.array(Kmod.sbvn_cdf(X, Y, mu_x=mu0, mu_y=mu1, sigma_x=sxx, sigma_y=syy), dtype=float)
+                    except Exception as e:
+                        corr_limited(ctx, "helper:" + op, "images_kernels.%s_cdf cannot be called as before (%s: %s); the value is taken "
+                                     "from the public gaussian() instead" % (op, type(e).__name__, e), {"correspondence": "helper:" + op}, limit=1)
+                        if op == "bvn" and not (sxy != 0.0 and sxy * sxy < sxx * syy):
+                            continue                     # r = 0 or |r| >= 1 through bvn_cdf: not reachable through gaussian()
+                        code = code_gauss(xs, ys, mu0, mu1, sxx, syy, sxy if op == "bvn" else 0.0)
             finally:
                 if idx < 400:
                     cov.__exit__()
@@ -542,16 +573,19 @@ def corr_gauss(ctx):
         agree = isinstance(a, list) and len(a) == len(code) and all(close(c, m, TOL) for c, m in zip(code, a))
         if not agree:
             disagreement_gauss(ctx, op, (xs, ys, mu0, mu1, sxx, syy, sxy), code, a)
-            if len(ctx.violations) > 5:
+            if n_found(ctx) > 5:
                 return
     ctx.extra["anchored_line_coverage"] = cov.summary()
     # norm_cdf
     a = ans[len(cases)]
-    with np.errstate(all="ignore"):
-        code = np.array(K().norm_cdf(np.array(zs)), dtype=float)
-    ctx.case({"op": "ncdf", "n": len(zs)}, True)
     from scipy import special
-    if not (isinstance(a, list) and len(a) == len(zs) and all(close(c, m, TOL) for c, m in zip(code, a))):
+    with np.errstate(all="ignore"):
+        st, code, _ = call(lambda: np.array(K().norm_cdf(np.array(zs)), dtype=float))
+    ctx.case({"op": "ncdf", "n": len(zs)}, True)
+    if st == "err" or np.shape(code) != (len(zs),):
+        corr_limited(ctx, "helper:norm_cdf", "images_kernels.norm_cdf cannot be called as norm_cdf(array) any more (%s)" % (code,),
+                     {"correspondence": "helper:norm_cdf"}, limit=1)
+    elif not (isinstance(a, list) and len(a) == len(zs) and all(close(c, m, TOL) for c, m in zip(code, a))):
         i = next((i for i in range(len(zs)) if not (isinstance(a, list) and i < len(a) and close(code[i], a[i], TOL))), 0)
         wrong = abs(float(code[i]) - float(special.ndtr(zs[i]))) > ACC
         ctx.violation("norm_cdf(%r): code=%r model=%r scipy.special.ndtr=%r" % (zs[i], float(code[i]), a[i] if isinstance(a, list) else a,
@@ -561,7 +595,12 @@ def corr_gauss(ctx):
                       found_input=wrong)
     # gauss_legendre_quad
     for q, a in zip(rs, ans[len(cases) + 1:]):
-        lg, w, x = K().gauss_legendre_quad(q)
+        st, v, _ = call(lambda: K().gauss_legendre_quad(q))
+        if st == "err" or not (isinstance(v, tuple) and len(v) == 3):
+            corr_limited(ctx, "helper:gauss_legendre_quad", "images_kernels.gauss_legendre_quad(r) cannot be called as before (%s)" % (v,),
+                         {"correspondence": "helper:gauss_legendre_quad"}, limit=1)
+            break
+        lg, w, x = v
         ctx.case({"op": "glq", "r": q}, True)
         ctx.count("glq:lg=%d" % lg)
         # the decimal literals of the source, read back from the floats: repr round-trips to the shortest decimal, and the
@@ -597,13 +636,37 @@ def disagreement_gauss(ctx, op, case, code, model):
                       {"op": op, "x": [xs[i]], "y": [ys[i]], "mu": [mu0, mu1], "sigma": [sxx, syy, sxy]}, correspondence="ker." + op)
     else:
         d = max((abs(float(c) - float(m)) for c, m in zip(code, model)), default=None) if isinstance(model, list) else None
-        ctx.violation("%s: code differs from the Float transcription by %r (> 1e-12) but is within 1e-7 of the reference on this input"
-                      % (op, d),
-                      {"correspondence": "ker." + op, "line": [xs, ys, mu0, mu1, sxx, syy, sxy], "code": code.tolist(),
-                       "model": model}, found_input=False)
+        corr_limited(ctx, "ker." + op, "%s: code differs from the Float transcription by %r (> 1e-12) but is within 1e-7 of the reference "
+                     "on this input" % (op, d),
+                     {"correspondence": "ker." + op, "line": [xs, ys, mu0, mu1, sxx, syy, sxy], "code": code.tolist(), "model": model})
 
 
 # ----------------------------------------------------------------------------- [T] streams on the real code
+
+_CORR_SEEN = set()
+
+
+def corr_once(ctx, key, what, case):
+    """a difference where the statement does not decide (tighter-than-stated agreement, the code's own helper): reported once per
+       kind as a correspondence break, never as a failing input"""
+    ctx.count("correspondence_only:" + key)
+    if key in _CORR_SEEN:
+        return
+    _CORR_SEEN.add(key)
+    ctx.violation(what, case, found_input=False, correspondence=key)
+
+
+def tails_ok(v, c):
+    """the tails clause on the 17 values of the tails stream (8 low-tail points, the upper corner, 8 marginal points at offsets c):
+       -> (within the statement's 1e-7 of 0 / 1 / the marginal, low tails and corner also within the 1e-12 the present code achieves)"""
+    from scipy import special
+    v = np.asarray(v, dtype=float)
+    marg = special.ndtr(np.array(list(c) + list(c)))
+    with np.errstate(all="ignore"):
+        fin = bool(np.all(np.isfinite(v)))
+        ok = fin and bool(np.all(np.abs(v[:8]) <= ACC)) and bool(abs(v[8] - 1.0) <= ACC) and bool(np.all(np.abs(v[9:] - marg) <= ACC))
+        tight = ok and bool(np.all(np.abs(v[:8]) <= SLACK)) and bool(abs(v[8] - 1.0) <= SLACK)
+    return ok, tight
 
 def t_gauss(ctx):
     """accuracy and validity of `gaussian` on the real code (the clauses no theorem decides)"""
@@ -614,7 +677,7 @@ def t_gauss(ctx):
         xs = [p[0] for p in pts]; ys = [p[1] for p in pts]
         v = code_gauss(xs, ys, 0.0, 0.0, 1.0, 1.0, rho)
         check_accuracy(ctx, "accuracy_corpus_r>=0.925", xs, ys, (0.0, 0.0, 1.0, 1.0, rho), v)
-        if len(ctx.violations) > 5:
+        if n_found(ctx) > 5:
             return
     # --- accuracy vs the closed form, range
     nsets = ctx.n(3000, 50000)
@@ -635,7 +698,7 @@ def t_gauss(ctx):
             j = int(np.argmax(~((v >= -SLACK) & (v <= 1 + SLACK))))
             ctx.violation("gaussian kernel value outside [0,1]: %r" % float(v[j]),
                           {"op": "gauss", "law": "range", "x": [xs[j]], "y": [ys[j]], "mu": [mu0, mu1], "sigma": [sxx, syy, sxy]})
-        if len(ctx.violations) > 5:
+        if n_found(ctx) > 5:
             return
     # --- accuracy vs adaptive integration and vs scipy's multivariate normal, point by point
     for i in range(ctx.n(1000, 20000)):
@@ -663,7 +726,7 @@ def t_gauss(ctx):
         if not (ok and okm):
             ctx.violation("gaussian differs from the bivariate normal CDF by more than 1e-7: code=%r adaptive integral=%r (est. err %r), r=%r"
                           % (v, q, e, rr), {"op": "gauss", "x": xs, "y": ys, "mu": [mu0, mu1], "sigma": [sxx, syy, sxy]})
-            if len(ctx.violations) > 5:
+            if n_found(ctx) > 5:
                 return
     # --- monotone in each argument on fine ladders; rectangle mass; tails; marginals
     for i in range(ctx.n(1000, 15000)):
@@ -716,37 +779,65 @@ def t_gauss(ctx):
             xs = [mu0 - T * sx] * 4 + [mu0 + t * sx for t in c] + [mu0 + T * sx] + [mu0 + T * sx] * 4 + [mu0 + t * sx for t in c]
             ys = [mu1 + t * sy for t in c] + [mu1 - T * sy] * 4 + [mu1 + T * sy] + [mu1 + t * sy for t in c] + [mu1 + T * sy] * 4
             v = code_gauss(xs, ys, *par)
-            lowtail = bool(np.all(np.abs(v[:8]) <= SLACK))
-            one = abs(v[8] - 1.0) <= SLACK
-            marg = special.ndtr(np.array(c + c))
-            okm = bool(np.all(np.abs(v[9:] - marg) <= ACC))
-            ok = lowtail and one and okm and bool(np.all(np.isfinite(v)))
+            ok, tight = tails_ok(v, c)
             ctx.test("tails_0_1_and_marginals", ok)
+            marg = special.ndtr(np.array(c + c))
+            if ok and not tight:
+                corr_once(ctx, "tails_tighter_than_the_statement",
+                          "gaussian kernel at %g sd: within the statement's 1e-7 of 0 / 1 but not within 1e-12 as the present code is "
+                          "(low tails %r, upper corner %r) — correspondence only" % (T, v[:8].tolist(), float(v[8])),
+                          {"correspondence": "tails", "op": "gauss", "law": "tails", "x": xs, "y": ys, "mu": [mu0, mu1],
+                           "sigma": [sxx, syy, sxy], "T": T, "c": c})
             if not ok:
                 ctx.violation("gaussian kernel tails: low tails %r, upper corner %r, marginals off by %r"
                               % (v[:8].tolist(), float(v[8]), float(np.max(np.abs(v[9:] - marg)))),
-                              {"op": "gauss", "law": "tails", "x": xs, "y": ys, "mu": [mu0, mu1], "sigma": [sxx, syy, sxy], "T": T})
-        if len(ctx.violations) > 5:
+                              {"op": "gauss", "law": "tails", "x": xs, "y": ys, "mu": [mu0, mu1], "sigma": [sxx, syy, sxy], "T": T, "c": c})
+        if n_found(ctx) > 5:
             return
-    # --- zero covariance: the product of the marginals, exactly as the code computes them, and accurately
+    # --- zero covariance: the product of the two marginals.  Verdict: within the statement's 1e-7 of Phi(h)*Phi(k) (an independent
+    # Phi: scipy.special.ndtr).  Correspondence only: bit-for-bit / 1e-12 agreement with the product of the code's OWN `norm_cdf`
+    # values (how the present code computes it; a kernel that calls another accurate Phi differs there in the last bits)
+    own_cdf = getattr(K(), "norm_cdf", None)
     for i in range(ctx.n(600, 8000)):
         mu0, mu1, sxx, syy, _, kind = gen_params(ctx, rho=0.0)
         ts = gen_ts(ctx, 16, 0.0)
         xs, ys = points(mu0, mu1, sxx, syy, ts)
         v = code_gauss(xs, ys, mu0, mu1, sxx, syy, 0.0)
         X, Y = np.array(xs), np.array(ys)
-        with np.errstate(all="ignore"):
-            own = K().norm_cdf((X - mu0) / np.sqrt(sxx)) * K().norm_cdf((Y - mu1) / np.sqrt(syy))
         truth = special.ndtr((X - mu0) / math.sqrt(sxx)) * special.ndtr((Y - mu1) / math.sqrt(syy))
-        ok = bool(np.all(v == own)) and bool(np.all(np.abs(v - truth) <= 1e-12))
+        with np.errstate(all="ignore"):
+            good = np.abs(v - truth) <= ACC                     # NaN -> False
+        ok = bool(np.all(good))
         ctx.test("zero_cov_is_product_of_marginals", ok)
         if not ok:
-            j = int(np.argmax(~((v == own) & (np.abs(v - truth) <= 1e-12))))
-            ctx.violation("zero covariance: gaussian=%r, product of the code's marginals=%r, Phi(h)Phi(k)=%r"
-                          % (float(v[j]), float(own[j]), float(truth[j])),
+            j = int(np.argmax(~good))
+            ctx.violation("zero covariance: gaussian=%r, the product of the marginals Phi(h)Phi(k)=%r (differ by more than 1e-7)"
+                          % (float(v[j]), float(truth[j])),
                           {"op": "gauss", "law": "product", "x": [xs[j]], "y": [ys[j]], "mu": [mu0, mu1], "sigma": [sxx, syy, 0.0]})
-            if len(ctx.violations) > 5:
+            if n_found(ctx) > 5:
                 return
+            continue
+        own = None
+        if own_cdf is not None:
+            with np.errstate(all="ignore"):
+                st, own, _ = call(lambda: own_cdf((X - mu0) / np.sqrt(sxx)) * own_cdf((Y - mu1) / np.sqrt(syy)))
+            own = np.array(own, dtype=float).reshape(-1) if st == "ok" else None
+        if own is None or own.shape != v.shape:
+            corr_once(ctx, "zero_cov_own_marginals", "images_kernels.norm_cdf is not callable as norm_cdf(array) any more; the zero-covariance "
+                      "product is within 1e-7 of Phi(h)Phi(k) — correspondence only", {"correspondence": "zero_cov_own_marginals"})
+            continue
+        exact = bool(np.all(v == own))
+        near = bool(np.all(np.abs(v - own) <= 1e-12 * np.maximum(1.0, np.abs(own)))) and bool(np.all(np.abs(v - truth) <= 1e-12))
+        ctx.test("zero_cov_equals_own_marginals_bitwise_(correspondence)", exact)
+        if not exact:
+            j = int(np.argmax(~(v == own)))
+            corr_once(ctx, "zero_cov_bits" if near else "zero_cov_1e-12",
+                      "zero covariance: gaussian=%r, product of the code's own norm_cdf values=%r, Phi(h)Phi(k)=%r: %s; within the "
+                      "statement's 1e-7 of the product of the marginals — correspondence only"
+                      % (float(v[j]), float(own[j]), float(truth[j]),
+                         "agree to 1e-12 but not bit for bit" if near else "differ by more than 1e-12"),
+                      {"correspondence": "zero_cov_product", "op": "gauss", "law": "product", "x": [xs[j]], "y": [ys[j]],
+                       "mu": [mu0, mu1], "sigma": [sxx, syy, 0.0]})
 
 
 def t_far_tails(ctx):
@@ -761,7 +852,7 @@ def t_far_tails(ctx):
         if not ok:
             ctx.violation("gaussian kernel in the far tail (r=%r): value %r at (%r,%r), the bivariate normal CDF is %r" % (rho, v, x, y, want),
                           {"op": "gauss", "law": "far_tail", "x": [x], "y": [y], "mu": [0.0, 0.0], "sigma": [1.0, 1.0, rho], "expect": want})
-            if len(ctx.violations) > 5:
+            if n_found(ctx) > 5:
                 return
     for i in range(ctx.n(600, 10000)):
         mu0, mu1, sxx, syy, sxy, kind = gen_params(ctx)
@@ -785,12 +876,44 @@ def t_far_tails(ctx):
                           % (T, rho, branch_of(rho), float(v[j]), float(want[j])),
                           {"op": "gauss", "law": "far_tail", "x": [xs[j]], "y": [ys[j]], "mu": [mu0, mu1], "sigma": [sxx, syy, sxy],
                            "expect": float(want[j])})
-            if len(ctx.violations) > 5:
+            if n_found(ctx) > 5:
                 return
 
 
+def uni_tol(xs, ys, mu0, mu1, w, h):
+    """rounding of the uniform kernel against its definition: the subtraction x-(mu-w/2) is rounded, so relative to the
+       coordinates' size in units of the box sides"""
+    t = max([abs(x - mu0) / w for x in xs] + [abs(y - mu1) / h for y in ys] + [0.0])
+    return 1e-12 * max(1.0, (abs(mu0) + abs(w)) / w, (abs(mu1) + abs(h)) / h, t)
+
+
+def uniform_law_holds(law, xs, ys, mu0, mu1, w, h):
+    """one law of the uniform-kernel clause on the real code at the recorded points (used by the stream and by `replay`):
+       range / box_cdf: every point; monotone: consecutive points (coordinates non-decreasing); tails: points [left of the box,
+       below it, beyond the upper-right corner]; rect: the rectangle [x0,x1]x[y0,y1]"""
+    v = code_uniform(xs, ys, mu0, mu1, w, h)
+    if not bool(np.all(np.isfinite(v))):
+        return False, v
+    if law == "range":
+        return bool(np.all((v >= -SLACK) & (v <= 1 + SLACK))), v
+    if law == "box_cdf":
+        spec = [float(uniform_spec(x, y, mu0, mu1, w, h)) for x, y in zip(xs, ys)]
+        tol = uni_tol(xs, ys, mu0, mu1, w, h)
+        return all(abs(a - b) <= tol for a, b in zip(v, spec)), v
+    if law == "monotone":
+        return bool(np.all(np.diff(v) >= -SLACK)), v
+    if law == "tails":
+        return bool(abs(v[0]) <= SLACK and abs(v[1]) <= SLACK and abs(v[2] - 1.0) <= SLACK), v
+    if law == "rect":
+        F = lambda a, b: float(code_uniform([a], [b], mu0, mu1, w, h)[0])
+        m = F(xs[1], ys[1]) - F(xs[0], ys[1]) - F(xs[1], ys[0]) + F(xs[0], ys[0])
+        return -SLACK <= m <= 1 + SLACK, np.array([m])
+    raise common.HarnessError("unknown uniform law %r" % law)
+
+
 def t_uniform(ctx):
-    """the uniform kernel's laws on the real code (rounding is outside the theorems)"""
+    """the uniform kernel's laws on the real code (rounding is outside the theorems: slack 1e-12 on range / monotonicity / tails /
+       rectangle mass, the definition to 1e-12 relative to the coordinates in box units)"""
     r = ctx.rng
     for i in range(ctx.n(800, 12000)):
         w = r.choice([2.0 ** r.randint(-8, 8), round(r.uniform(0.01, 9), 3), 10 ** r.uniform(-4, 4)])
@@ -802,33 +925,51 @@ def t_uniform(ctx):
         ty = sorted(r.choice([-0.5, 0.5, 0.0, r.uniform(-0.7, 0.7), r.uniform(-30, 30)]) for _ in range(m))
         xs = [mu0 + t * w for t in tx]; ys = [mu1 + t * h for t in ty]
         c = r.uniform(-0.6, 0.6)
-        vx = code_uniform(xs, [mu1 + c * h] * m, mu0, mu1, w, h)
-        vy = code_uniform([mu0 + c * w] * m, ys, mu0, mu1, w, h)
-        v = code_uniform(xs, ys, mu0, mu1, w, h)
-        ok_range = all(bool(np.all((a >= 0) & (a <= 1 + 4e-16))) for a in (vx, vy, v))
-        ok_mono = bool(np.all(np.diff(vx) >= 0)) and bool(np.all(np.diff(vy) >= 0)) and bool(np.all(np.diff(v) >= 0))
-        spec = [float(uniform_spec(x, y, mu0, mu1, w, h)) for x, y in zip(xs, ys)]
-        # the subtraction x-(mu-w/2) is rounded: compare relative to the coordinates' size
-        tol = 1e-12 * max(1.0, (abs(mu0) + abs(w)) / w, (abs(mu1) + abs(h)) / h) + 1e-9 * 0
-        tol = max(tol, 1e-12 * max(abs(t) for t in tx + ty))
-        ok_spec = all(abs(a - b) <= tol for a, b in zip(v, spec))
-        # tails: exactly 0 left of / below the box, 1 beyond the upper-right corner
-        far = code_uniform([mu0 - 2 * w, mu0, mu0 + 2 * w], [mu1, mu1 - 2 * h, mu1 + 2 * h], mu0, mu1, w, h)
-        ok_tail = far[0] == 0.0 and far[1] == 0.0 and abs(far[2] - 1.0) <= 4e-16
-        # rectangles
+        sets = {"x": (xs, [mu1 + c * h] * m), "y": ([mu0 + c * w] * m, ys), "xy": (xs, ys)}
+        fails = []                                  # (law, xs, ys) of the first witness of each failing law
+        res = {}
+        for law in ("range", "monotone"):
+            res[law] = True
+            for name, (a, b) in sets.items():
+                ok, v = uniform_law_holds(law, a, b, mu0, mu1, w, h)
+                if not ok:
+                    res[law] = False
+                    if law == "range":
+                        j = int(np.argmax(~((v >= -SLACK) & (v <= 1 + SLACK))))
+                        fails.append((law, [a[j]], [b[j]]))
+                    else:
+                        j = int(np.argmax(~(np.diff(v) >= -SLACK)))
+                        fails.append((law, [a[j], a[j + 1]], [b[j], b[j + 1]]))
+                    break
+        res["box_cdf"], v = uniform_law_holds("box_cdf", xs, ys, mu0, mu1, w, h)
+        if not res["box_cdf"]:
+            j = next((j for j in range(m) if not uniform_law_holds("box_cdf", [xs[j]], [ys[j]], mu0, mu1, w, h)[0]), 0)
+            fails.append(("box_cdf", [xs[j]], [ys[j]]))
+        # tails: 0 left of / below the box, 1 beyond the upper-right corner
+        far = ([mu0 - 2 * w, mu0, mu0 + 2 * w], [mu1, mu1 - 2 * h, mu1 + 2 * h])
+        res["tails"], _ = uniform_law_holds("tails", far[0], far[1], mu0, mu1, w, h)
+        if not res["tails"]:
+            fails.append(("tails", far[0], far[1]))
+        # rectangles between consecutive points
         x0, x1 = xs[:-1], xs[1:]; y0, y1 = ys[:-1], ys[1:]
         mass = code_uniform(x1, y1, mu0, mu1, w, h) - code_uniform(x0, y1, mu0, mu1, w, h) \
             - code_uniform(x1, y0, mu0, mu1, w, h) + code_uniform(x0, y0, mu0, mu1, w, h)
-        ok_rect = bool(np.all(mass >= -SLACK))
-        for name, ok in (("uniform_range", ok_range), ("uniform_monotone", ok_mono), ("uniform_is_box_cdf", ok_spec),
-                         ("uniform_tails", ok_tail), ("uniform_rectangle_mass", ok_rect)):
-            ctx.test(name, ok)
-        if not (ok_range and ok_mono and ok_spec and ok_tail and ok_rect):
-            j = next((j for j in range(m) if abs(v[j] - spec[j]) > tol or not (0 <= v[j] <= 1 + 4e-16)), 0)
-            ctx.violation("uniform kernel law fails on the real code (range=%s monotone=%s box-cdf=%s tails=%s rect=%s): "
-                          "value %r, definition %r" % (ok_range, ok_mono, ok_spec, ok_tail, ok_rect, float(v[j]), spec[j]),
-                          {"op": "uniform", "x": [xs[j]], "y": [ys[j]], "mu": [mu0, mu1], "w": w, "h": h})
-            if len(ctx.violations) > 5:
+        res["rect"] = bool(np.all(mass >= -SLACK))
+        if not res["rect"]:
+            j = int(np.argmax(~(mass >= -SLACK)))
+            fails.append(("rect", [x0[j], x1[j]], [y0[j], y1[j]]))
+        for name, law in (("uniform_range", "range"), ("uniform_monotone", "monotone"), ("uniform_is_box_cdf", "box_cdf"),
+                          ("uniform_tails", "tails"), ("uniform_rectangle_mass", "rect")):
+            ctx.test(name, res[law])
+        if fails:
+            law, fx, fy = fails[0]
+            _, fv = uniform_law_holds(law, fx, fy, mu0, mu1, w, h)
+            ctx.violation("uniform kernel law fails on the real code (%s): law `%s` at x=%r y=%r: value(s) %r, definition %r"
+                          % (" ".join("%s=%s" % kv for kv in res.items()), law, fx, fy, fv.tolist(),
+                             [float(uniform_spec(x, y, mu0, mu1, w, h)) for x, y in zip(fx, fy)]),
+                          {"op": "uniform", "law": law, "x": fx, "y": fy, "mu": [mu0, mu1], "w": w, "h": h,
+                           "all_failing_laws": [f[0] for f in fails]})
+            if n_found(ctx) > 5:
                 return
 
 
@@ -889,15 +1030,15 @@ def run(ctx):
     if bt:
         print("generated/proved obligations that no longer check: %s" % ", ".join(bt), flush=True)
     corr_uniform(ctx)
-    if len(ctx.violations) <= 5:
+    if n_found(ctx) <= 5:
         corr_gauss(ctx)
     ncorr = ctx.evaluations
-    if len(ctx.violations) <= 5:
+    if n_found(ctx) <= 5:
         t_old_model(ctx)
         t_uniform(ctx)
-    if len(ctx.violations) <= 5:
+    if n_found(ctx) <= 5:
         t_gauss(ctx)
-    if len(ctx.violations) <= 5:
+    if n_found(ctx) <= 5:
         t_far_tails(ctx)
     ctx.extra["proof_part"] = {
         "what": "uniform kernel (range, monotone, tails, rectangle mass, product of clamps, Lebesgue measure of box ∩ quadrant); "
@@ -929,7 +1070,11 @@ def replay(ctx, rep):
         v = code_uniform(c["x"], c["y"], c["mu"][0], c["mu"][1], c["w"], c["h"])
         spec = [float(uniform_spec(x, y, c["mu"][0], c["mu"][1], c["w"], c["h"])) for x, y in zip(c["x"], c["y"])]
         print("code:", v.tolist(), "\ndefinition:", spec)
-        return all(abs(a - b) <= 1e-9 for a, b in zip(v, spec))
+        if c.get("law"):                      # a law of the [T] uniform stream: re-evaluated at the recorded points
+            ok, val = uniform_law_holds(c["law"], c["x"], c["y"], c["mu"][0], c["mu"][1], c["w"], c["h"])
+            print("law `%s`: %s (%r)" % (c["law"], "holds" if ok else "FAILS", val.tolist()))
+            return ok
+        return all(math.isfinite(a) and abs(a - b) <= 1e-9 for a, b in zip(v, spec))
     if c["op"] == "ncdf":
         v = np.array(K().norm_cdf(np.array(c["x"])), dtype=float)
         print("code:", v.tolist(), "ndtr:", special.ndtr(np.array(c["x"])).tolist())
@@ -964,9 +1109,14 @@ def replay(ctx, rep):
     if law == "range":
         return bool(np.all((v >= -SLACK) & (v <= 1 + SLACK)))
     if law == "product":
+        truth = special.ndtr((np.array(xs) - mu0) / math.sqrt(sxx)) * special.ndtr((np.array(ys) - mu1) / math.sqrt(syy))
+        print("product of the marginals:", truth.tolist())
         with np.errstate(all="ignore"):
-            own = K().norm_cdf((np.array(xs) - mu0) / np.sqrt(sxx)) * K().norm_cdf((np.array(ys) - mu1) / np.sqrt(syy))
-        return bool(np.all(v == own)) and bool(np.all(np.abs(v - ref) <= 1e-12))
+            return bool(np.all(np.abs(v - truth) <= ACC))
+    if law == "tails" and c.get("c") is not None and len(v) == 17:
+        ok, tight = tails_ok(v, c["c"])
+        print("tails within 1e-7:", ok, "| within 1e-12 (correspondence):", tight)
+        return ok
     if ref is None:
         return True
     ok = True
@@ -1001,7 +1151,9 @@ MANIFEST = {
     "note": "Trusted: Lean kernel + Mathlib, axioms propext/Classical.choice/Quot.sound; the correspondence harness and the constant "
             "translator (ast); scipy.special.owens_t/ndtr, scipy.integrate.quad and scipy.stats.multivariate_normal as accuracy references; "
             "erfc as a monotone Φ into [0,1] (contract of scipy.special.erfc, compared with the driver's own erfc on every run). Theorems "
-            "are exact-arithmetic; rounding is covered only by the [T] streams (slack 1e-12). Evidence reports proof_part and test_part "
+            "are exact-arithmetic; rounding is covered only by the [T] streams (slack 1e-12 on range / monotonicity / rectangle mass; tails, "
+            "marginals and the zero-covariance product at the statement's 1e-7, tighter agreement is reported as a correspondence break "
+            "without a failing input). Evidence reports proof_part and test_part "
             "separately. Clause by clause - [T] ONLY (no theorem), all for the Gaussian kernel with NON-ZERO covariance (bvn_cdf): values "
             "in [0,1] (stream range_[0,1]); non-decreasing in each argument (monotone_in_x, monotone_in_y); non-negative mass on every "
             "rectangle (rectangle_mass_nonneg); tails 0 and 1 (tails_0_1_and_marginals, far_tails); agreement with a reference bivariate "
